@@ -97,6 +97,8 @@ fn main() {
         "C13" => facets::c13::run(&opts),
         "C07" => facets::c07::run(&opts),
         "C08" => facets::c08::run(&opts),
+        "C18" => facets::c18::run(&opts),
+        "C17" => facets::c17::run(&opts),
         other => {
             eprintln!("unknown facet {}", other);
             std::process::exit(2)
